@@ -450,6 +450,42 @@ func vC01ParkedProgram(rnd *vRand, maxSeg int64) []string {
 	return append(prog, "read 0 u", "read 0 c")
 }
 
+// vC01InDomain: a (shrunk) program is still one the generators could have produced as far as the high watermark goes:
+// no `sethw` beyond the end of the log at that point (removing the appends in front of a `sethw` would otherwise turn
+// a failing case into a different one - a HW above the log end, which no caller of the commit log produces).
+func vC01InDomain(prog []string) bool {
+	next := int64(0)
+	for _, op := range prog {
+		f := strings.Fields(op)
+		switch f[0] {
+		case "begin", "reopen":
+			if f[0] == "begin" {
+				next = 0
+			}
+		case "append":
+			next += int64(len(f) - 3)
+		case "appendset":
+			for _, tok := range f[1:] {
+				if o, err := strconv.ParseInt(strings.SplitN(tok, "/", 2)[0], 10, 64); err == nil && o+1 > next {
+					next = o + 1
+				}
+			}
+		case "truncate":
+			if o, err := strconv.ParseInt(f[1], 10, 64); err == nil && o < next {
+				if o < 0 {
+					o = 0
+				}
+				next = o
+			}
+		case "sethw":
+			if o, err := strconv.ParseInt(f[1], 10, 64); err == nil && o >= next {
+				return false
+			}
+		}
+	}
+	return true
+}
+
 func TestVerifC01(t *testing.T) {
 	model := vStartModel(t)
 	defer model.Close()
@@ -480,7 +516,14 @@ func TestVerifC01(t *testing.T) {
 			res.Sample(map[string]interface{}{"program": prog, "impl": impl})
 		}
 		if what, tag := vC01Oracle(prog, impl); what != "" {
+			if os.Getenv("VERIF_SHOW_ORIGINAL") != "" {
+				// the program as generated (the recorded case is the shrunk one, which can leave the generator's domain)
+				fmt.Fprintf(os.Stderr, "ORIGINAL-FAILING %s: %s\n  %s\n", tag, what, strings.Join(prog, "\n  "))
+			}
 			small := vShrink(prog, func(p []string) bool {
+				if !vC01InDomain(p) {
+					return false
+				}
 				v := &vLogImpl{t: t}
 				defer v.close()
 				out := make([]string, len(p))
